@@ -609,7 +609,7 @@ type c06Plan struct {
 	l0stack   bool // old instances checkpoint with several overlapping level-0 tables (compaction trigger out of reach)
 }
 
-var c06Filler = strings.Repeat("ab", 150) // one put of this value overfills a 200-byte memtable: rotation + flush
+var c06Filler = strings.Repeat("ab", 300) // 300 bytes: one put of this value overfills a 200-byte memtable: rotation + flush
 
 // c06StackWrites emits rounds of small writes over a few keys of the instance, each round closed by a filler put that
 // forces a flush: with a high level-0 compaction trigger the checkpoint then holds one level-0 table per round, the
@@ -898,6 +898,25 @@ func propC06() *lib.Prop {
 					"seq 100", "seq 101", "seq 102",
 				}}
 				cs = append(cs, l0c)
+			}
+			// scale-in form of D6: the source with the highest sequence numbers sits in the base level, the other source
+			// has a level-0 table with small ones; the composite's sequence number must be above BOTH (the old
+			// instances number their writes independently), else a write to a restored key loses in scans
+			kA, kB := lib.Hex(c06Key(0x11, []byte("a"))), lib.Hex(c06Key(0x91, []byte("b")))
+			for _, order := range []string{"0:1,1:1", "1:1,0:1"} {
+				sq := lib.Case{Header: "M C06 l0=2 amp=50 smallest=268435456", Tags: []string{"seq-two-sources"}, Ops: []string{
+					"new 0 0 128 1 1048576",
+					"put 0 " + kA + " a1", "put 0 " + lib.Hex(c06Key(0x12, nil)) + " 00", "put 0 " + lib.Hex(c06Key(0x13, nil)) + " 00",
+					"put 0 " + lib.Hex(c06Key(0x14, nil)) + " 00", "put 0 " + lib.Hex(c06Key(0x15, nil)) + " 00", "put 0 " + kA + " a6",
+					"new 1 128 256 200 1048576",
+					"put 1 " + kB + " b1", "put 1 " + lib.Hex(c06Key(0x92, nil)) + " " + c06Filler,
+					"ckpt 0 1", "ckpt 1 1",
+					"open 100 0 256 1048576 1048576 " + order,
+					"get 100 " + kA, "put 100 " + kA + " a7", "del 100 " + kB,
+					"scan 100 " + lib.Hex(c06Key(0x11, nil)), "get 100 " + kA, "scan 100 " + lib.Hex(c06Key(0x91, nil)), "get 100 " + kB,
+					"scanown 100", "seq 100",
+				}}
+				cs = append(cs, sq)
 			}
 			return cs
 		},
